@@ -171,6 +171,7 @@ func sortedInts(v []int) []int {
 }
 
 func runC09(c *harness.Ctx) {
+	defer maybeWoven(c)()
 	t := c.T
 	iat := t.Draw("iat", 3)
 	bias := t.Draw("bias", 2) == 1
